@@ -66,7 +66,7 @@ theorem C12_order_preserving (md : Int) (ref qry : OMap) (start stop : Int) (rev
     (h1 : APos.pair p1 ∈ engineAlign md ref qry start stop rev it)
     (h2 : APos.pair p2 ∈ engineAlign md ref qry start stop rev it)
     (hlt : p1.r.pos < p2.r.pos) : p1.q.pos ≤ p2.q.pos :=
-  Coma.Proofs.engine_order_preserving md ref qry start stop rev it hr hq p1 p2 h1 h2 hlt
+  Coma.Proofs.PO.engine_order_preserving md ref qry start stop rev it hr hq p1 p2 h1 h2 hlt
 
 /-- reference and query labels that are strictly each other's nearest partner within
     maxDistance are paired -/
@@ -77,7 +77,7 @@ theorem C12_mutual_nearest (md : Int) (ref qry : OMap) (start stop : Int) (rev :
     (hnr : ∀ r' ∈ refWindow md ref start stop, r' ≠ r → (offset start r q).natAbs < (offset start r' q).natAbs)
     (hnq : ∀ q' ∈ qry.labels rev, q' ≠ q → (offset start r q).natAbs < (offset start r q').natAbs) :
     ∃ p, APos.pair p ∈ engineAlign md ref qry start stop rev it ∧ p.r = r ∧ p.q = q :=
-  Coma.Proofs.engine_mutual_nearest md ref qry start stop rev it hr hq r q hrw hql hd hnr hnq
+  Coma.Proofs.PO.engine_mutual_nearest md ref qry start stop rev it hr hq r q hrw hql hd hnr hnq
 
 /-- non-vacuity / inclusiveness: a label exactly at maxDistance is paired (|offset| = md = 2) -/
 example : engineAlign 2 ⟨1, 20, [5, 12], 0⟩ ⟨2, 8, [0, 7], 0⟩ 3 11 false 1 =
